@@ -23,6 +23,9 @@ Next == /\ st.fn = 0
            \/ \E dmax \in {0, 1, 2, 3, 4, 5, 8, 5000}, dn \in {0, 1}, pre \in {0, 1},
                  inp \in {<<>>, <<10>>, <<97>>, <<97, 10>>, <<97, 98, 10>>, <<97, 98, 99>>, <<97, 98, 99, 10>>, <<97, 98, 99, 100, 10, 101>>, <<97, 98, 99, 100, 101, 102, 103, 104, 10>>} :
                 st' = [fn |-> 7, dmax |-> dmax, dnull |-> dn, pre |-> pre, args |-> <<Len(inp)>> \o inp]
+           \/ \E spn \in {0, 1}, fnn \in {0, 1}, mn \in {0, 1}, which \in 0..3 : st' = [fn |-> 8, dmax |-> 0, dnull |-> 0, pre |-> 0, args |-> <<spn, fnn, mn, which>>]
+           \/ \E spn \in {0, 1}, fnn \in {0, 1}, mn \in {0, 1}, stn \in {0, 1}, which \in {0, 1, 3} : st' = [fn |-> 9, dmax |-> 0, dnull |-> 0, pre |-> 0, args |-> <<spn, fnn, mn, stn, which>>]
+           \/ \E spn \in {0, 1} : st' = [fn |-> 10, dmax |-> 0, dnull |-> 0, pre |-> 0, args |-> <<spn>>]
 Spec == Init /\ [][Next]_st
 AsctimeShape == st.fn = 2 => LET t == TmOf(st.args) IN (~TmLow(t) /\ ~TmHigh(t)) =>
                   LET s == Asctime(t) IN s[Len(s)] = 10 /\ s[4] = 32 /\ (t.year >= -900 /\ t.year <= 8099 => Len(s) = 25 \/ Len(s) = 24 \/ Len(s) = 23 \/ Len(s) = 22)
